@@ -35,7 +35,7 @@ fn same_prefix(v: &StackVec, arr: &[bigint::Limb; CAP], n: usize) -> bool {
 fn c13_new_len_capacity() {
     let v = StackVec::new();
     assert!(v.len() == 0 && v.is_empty() && v.capacity() == CAP, "C13 new() is the empty sequence, capacity 62");
-    assert!(bigint::BIGINT_LIMBS == 62 && bigint::BIGINT_BITS == 4000 && bigint::LIMB_BITS == 64);
+    assert!(bigint::BIGINT_LIMBS == 62 && bigint::LIMB_BITS == 64);
     let (w, _arr, len) = any_wf();
     assert!(w.len() == len && w.is_empty() == (len == 0) && w.capacity() == CAP, "C13 len/is_empty/capacity");
     let s: &[bigint::Limb] = &w;
